@@ -241,6 +241,19 @@ def static_uses(prog, static_name, crate="stylua"):
     return out, loose
 
 
+def _under_is_err(f, bi):
+    """block bi runs only when a `Result::is_err()` dominating it answered true"""
+    for b, t in f.calls():
+        if re.search(r"Result::<.*>::is_err$", callee(t)) and f.dominates(b, bi):
+            e = bool_edge(f, b)
+            if not e or e[0] is None or e[1] is None or e[0] == e[1]:
+                continue
+            tr, fl = e
+            if f.dominates(tr, bi) and bi not in f.reach_from(fl, avoid={tr}):
+                return True
+    return False
+
+
 def rule_exit(ctx, prop):
     rep = Report(prop, "R-EXIT", "who reads/writes EXIT_CODE, with which constants; status read after join; passed "
                                  "to process::exit; worker panics map to 2")
@@ -261,8 +274,8 @@ def rule_exit(ctx, prop):
         for f, bi, t, m, consts in writers:
             val = consts[0] if consts else None
             in_err_arm = False
-            if _is_output_closure(prog, f) and val == 2:
-                in_err_arm = guarded_by_variant(f, bi, "result::Result", "Err")
+            if (_is_output_closure(prog, f) or f.path == "format") and val == 2:
+                in_err_arm = guarded_by_variant(f, bi, "result::Result", "Err") or _under_is_err(f, bi)
             where_ok = (_is_output_closure(prog, f) and val == 1) or (_is_logger_closure(prog, f) and val == 2) \
                 or in_err_arm
             rep.inst(f"{f.key} EXIT_CODE.{m}({val})", {"fn": f.key, "at": f.loc(t["sp"])}, cfg, ok=where_ok)
@@ -1124,7 +1137,8 @@ def rule_walk(ctx, prop, dedup_only=False):
 
 def rule_err_status(ctx, prop):
     rep = Report(prop, "R-ERRSTATUS", "every path of the output thread that handles an Err result raises the exit status to 2 "
-                                      "(through error!, whose logger stores 2, or by writing EXIT_CODE directly)")
+                                      "by writing EXIT_CODE directly (a store under `is_err()` of the received result ahead of the match "
+                                      "counts; error!() does not - whether its record reaches the logger's closure is up to STYLUA_LOG)")
     for cfg, prog in ctx.programs.items():
         prog = _view(prog)
         oc = _output_closure(prog)
@@ -1149,17 +1163,20 @@ def rule_err_status(ctx, prop):
         for f, bi, t, m, consts in uses:
             if f is oc and m in ("store", "fetch_max") and consts and consts[0] == 2:
                 raisers.add(bi)
-        for bi, blk in enumerate(oc.blocks):
-            t = blk["term"]
-            if t["k"] == "call" and "error" in span_macros(t.get("sp")) and \
-                    (callee(t).endswith("PartialOrd::le") or "PartialOrd" in callee(t) or
-                     callee(t) == "log::__private_api::log"):
-                raisers.add(bi)
-            for s in blk["st"]:
-                if "error" in span_macros(s.get("sp")) and s["k"] == "assign" and s["rv"]["k"] == "agg" and \
-                        s["rv"].get("variant") == "Error" and "log::Level" in s["rv"].get("adt", ""):
-                    raisers.add(bi)
+        # error!() is NOT a raiser: the logger's format closure stores 2 only for records that pass the filter, and the filter
+        # is under the control of the environment (`STYLUA_LOG=stylua=off`) - found as F24 and repaired; the status is raised by
+        # writing EXIT_CODE directly
         rep.floor("status-2 raisers in the output closure", len(raisers), 3, cfg)
+        # a store under `if output.is_err()` on the received result, ahead of the match, covers its Err arm
+        pre_raised = False
+        for rb in raisers:
+            for b2, t2 in oc.calls():
+                if re.search(r"Result::<.*>::is_err$", callee(t2)) and t2["args"] and \
+                        any(r[0] == "call" and r[2] == header for r in provenance(oc, t2["args"][0], through=None)):
+                    e2 = bool_edge(oc, b2)
+                    if e2 and e2[0] is not None and e2[1] is not None and e2[0] != e2[1] and oc.dominates(e2[0], rb) and \
+                            rb not in oc.reach_from(e2[1], avoid={e2[0]}) and oc.dominates(b2, errb):
+                        pre_raised = True
         # every Err edge in the closure: the received result, and the results of the closure's own fallible calls
         # (stdout writes): search for a path Err-arm -> loop header avoiding raisers
         err_arms = [("received result", errb)]
@@ -1173,6 +1190,8 @@ def rule_err_status(ctx, prop):
             seen = set()
             stack = [(eb, [])]
             escapes = []
+            if label == "received result" and pre_raised:
+                stack = []
             while stack:
                 b, calls = stack.pop()
                 if b in raisers:
@@ -1206,6 +1225,42 @@ def rule_err_status(ctx, prop):
                               f"receive loop without raising the exit status to 2: the run can exit 0/1 although a file could "
                               f"not be read, parsed or verified - or its result could not be reported", oc.loc(), cfg)
         rep.floor("Err arms in the output closure", len(err_arms), 1, cfg)
+        # the walking thread: a path argument that cannot be walked (missing file, unreadable directory) is an Err item of the
+        # walker; the same applies to it
+        ff = prog.fn("stylua", "format")
+        if ff is not None:
+            wn = [b for b, t in ff.calls() if re.search(r"<ignore::Walk as std::iter::Iterator>::next$", callee(t))]
+            if rep.anchor(len(wn) == 1, "walker loop in format", cfg):
+                wh = wn[0]
+                werr = None
+                for bi in range(len(ff.blocks)):
+                    si = switch_info(ff, bi)
+                    if si and si["enum"].endswith("result::Result") and si["targets"].get("Err") is not None and \
+                            any(r[0] == "call" and r[2] == wh for r in provenance(ff, si["place"], through=None)):
+                        werr = si["targets"]["Err"]
+                wr = {bi for f_, bi, t, m, consts in uses if f_ is ff and m in ("store", "fetch_max") and consts and consts[0] == 2}
+                okw = False
+                if werr is not None:
+                    # raised inside the arm on every path back to the loop head, or ahead of the match under is_err()
+                    inside = wh not in ff.reach_from(werr, avoid=wr) and not any(
+                        ff.blocks[b_]["term"]["k"] == "return" for b_ in ff.reach_from(werr, avoid=wr))
+                    ahead = False
+                    for rb in wr:
+                        for b2, t2 in ff.calls():
+                            if re.search(r"Result::<.*>::is_err$", callee(t2)) and t2["args"] and \
+                                    any(r[0] == "call" and r[2] == wh for r in provenance(ff, t2["args"][0], through=None)):
+                                e2 = bool_edge(ff, b2)
+                                if e2 and e2[0] is not None and e2[1] is not None and e2[0] != e2[1] and ff.dominates(e2[0], rb) and \
+                                        rb not in ff.reach_from(e2[1], avoid={e2[0]}) and ff.dominates(b2, werr):
+                                    ahead = True
+                    okw = inside or ahead
+                if rep.anchor(werr is not None, "Err arm of the walker item in format", cfg):
+                    rep.inst("stylua::format walker-error-raises-status-2", None, cfg, ok=okw)
+                    if not okw:
+                        rep.violation("stylua::format walker-error-without-status-2",
+                                      "an Err item of the directory walker (a path argument that does not exist or cannot be read) is "
+                                      "only logged: with the record filtered out (`STYLUA_LOG=stylua=off`) the run exits 0 although "
+                                      "a selected path was not processed", ff.loc(), cfg)
     return rep
 
 
@@ -1673,4 +1728,46 @@ def rule_check_verdict(ctx, prop):
                               f"- or reported - by something other than the comparison of the input with its formatted text",
                               f.loc(), cfg)
         rep.floor("check-mode result path classes in format_file + format_string", n, 2, cfg)
+    return rep
+
+
+def rule_logger_filter(ctx, prop):
+    """the exit status 2 of an error is stored by the logger's format closure, which only runs for records that pass the filter:
+    the level chosen by the program (Warn / Debug) must be the last word for the root filter, not the environment"""
+    rep = Report(prop, "R-LOGFILTER", "in main, `Builder::filter(None, level)` is applied after the STYLUA_LOG directives are read (its receiver "
+                                      "chain contains from_env / parse_env) and nothing that reads the environment comes after it: an error "
+                                      "record always reaches the format closure that raises the exit status")
+    for cfg, prog in ctx.programs.items():
+        prog = _view(prog)
+        f = prog.fn("stylua", "main")
+        if not rep.anchor(f is not None, "fn main", cfg):
+            continue
+        filt = [(b, t) for b, t in f.calls() if re.search(r"env_logger::(logger::)?Builder::filter(_level)?$", callee(t))]
+        envs = [(b, t) for b, t in f.calls() if re.search(r"env_logger::(logger::)?Builder::(from_env|parse_env|from_default_env|parse_default_env|parse_filters)$", callee(t))]
+        if not rep.anchor(len(filt) >= 1, "env_logger Builder::filter call in main", cfg):
+            continue
+
+        def chain(o):
+            out = set()
+            stack, seen = [o], set()
+            while stack:
+                x = stack.pop()
+                for r in provenance(f, x, through=None, into_aggs=False):
+                    if r[0] == "call" and r[2] not in seen:
+                        seen.add(r[2])
+                        out.add(r[2])
+                        t2 = f.blocks[r[2]]["term"]
+                        if t2["args"] and not is_const(t2["args"][0]):
+                            stack.append(t2["args"][0])
+            return out
+        fb = {b for b, _ in filt}
+        late = [callee(t).split("::")[-1] for b, t in envs if t["args"] and not is_const(t["args"][0]) and (chain(t["args"][0]) & fb)]
+        ok = not late
+        rep.inst(f"{f.key} program's level filter is applied after the environment's directives", {"env_calls": len(envs)}, cfg, ok=ok)
+        if not ok:
+            rep.violation(f"{f.key} environment-overrides-level-filter via={','.join(sorted(set(late)))}",
+                          f"main reads the logging directives from the environment ({sorted(set(late))}) after setting the program's own "
+                          f"level filter: env_logger lets the later directive win, so `STYLUA_LOG=off` filters out error records, the "
+                          f"format closure that stores exit status 2 never runs, and a parse error exits 0 with empty output",
+                          f.loc(), cfg)
     return rep
